@@ -279,7 +279,7 @@ pub fn interf() -> u8 {
 pub fn interf_text(c: u8) -> &'static str {
     match c {
         1 => "[first every kind of search (with and without target, cycle searches, transposed) is run from every node] ",
-        2 => "[the closure also runs every kind of search from the target of the edge it is handed] ",
+        2 => "[the closure also looks up the root's key at both end points of the edge it is handed and runs every kind of search from the edge's target] ",
         _ => "",
     }
 }
@@ -323,7 +323,11 @@ pub fn exec<F: Fl>(w: &World<F>, root: K, cfg: &Cfg, reject: &[Arc3]) -> Result<
             let ok = !reject.contains(&a);
             trace.push((a, ok));
             if mode == 2 {
-                let (_, t, _) = F::edge_parts(e);
+                // look-ups on both end points first (a look-up must not disturb a running traversal either)
+                let (s, t, _) = F::edge_parts(e);
+                // (one key only - the root's: looking up every key in turn could undo what the first look-up did)
+                let _ = (F::is_connected(&s, root), F::find_out(&t, root), F::find_in(&s, root));
+                let _ = (F::deg_out(&s), F::deg_in(&s), F::is_orphan(&t));
                 all_searches_from::<F>(&t, 0, false);
             }
             ok
@@ -1425,7 +1429,14 @@ pub fn sweep<F: Fl>(job: &Job, out: &mut Out) {
                     crate::progress::tick();
                     let c = GCase { n: p.n, conns: conns.clone(), vals: vals.clone(), root, cfg, reject, mode: mode.to_string(), churn: churn(), interf: interf() };
                     out.stats.inc("evaluations");
-                    match check_case::<F>(prop, &w, &m, &c, &mut dfs, wt.as_ref()) {
+                    // with interfering searches / look-ups every case gets a graph of its own: whatever they
+                    // leave behind must show in this case (and in its replay), not in a later one
+                    let fresh = if interf() != 0 { Some((build_world::<F>(vals, conns), if prop == "C08" { Some(build_world::<F>(vals, &conns_t)) } else { None })) } else { None };
+                    let (w, wt) = match &fresh {
+                        Some((a, b)) => (a, b.as_ref()),
+                        None => (&w, wt.as_ref()),
+                    };
+                    match check_case::<F>(prop, w, &m, &c, &mut dfs, wt) {
                         Ok((sres, tlen)) => {
                             let nontrivial = !c.reject.is_empty()
                                 || match &sres {
@@ -1512,6 +1523,9 @@ pub fn replay<F: Fl>(prop: &str, case: &Value) -> Vec<Violation> {
         Ok((s, t)) => println!("  result : {:?}\n  closure calls: {:?}", s, t),
         Err(f) => println!("  call failed: {:?}", f),
     }
+    // the check runs on graphs of its own, as in the sweep (the call above may have left something behind)
+    let w = build_world::<F>(&c.vals, &c.conns);
+    let wt = build_world::<F>(&c.vals, &conns_t);
     if let Err((class, what)) = check_case::<F>(prop, &w, &m, &c, &mut dfs, Some(&wt)) {
         out.report(Violation { property: prop.into(), engine: "gsweep".into(), flavour: F::NAME.into(), class, what, case: case.clone(), order: 0 });
     }
